@@ -54,6 +54,8 @@ pub struct Live {
     pub lead_tail: u64,
     pub flow: BTreeMap<u64, FlowGhost>,
     pub snap_out: Vec<u64>,
+    /// index of the last snapshot released to each peer (C15: replication resumes after it)
+    pub snap_idx: BTreeMap<u64, u64>,
     pub xfer: Option<(u64, u32)>,
     pub prevote_grants: Vec<u64>,
     pub prevote_term: u64,
@@ -340,7 +342,7 @@ impl World {
         cs.set_learners(scen.learners.clone());
         let mut nodes = vec![];
         for c in &scen.nodes {
-            let disk = Store::new(cs.clone());
+            let disk = Store::new(if c.empty_conf { ConfState::default() } else { cs.clone() });
             nodes.push(Node {
                 live: None,
                 disk,
@@ -443,6 +445,7 @@ impl World {
             lead_tail: 0,
             flow: BTreeMap::new(),
             snap_out: vec![],
+            snap_idx: BTreeMap::new(),
             xfer: None,
             prevote_grants: vec![],
             prevote_term: 0,
@@ -2121,6 +2124,11 @@ fn write_live(w: &mut W, l: &Live) {
     let mut so = l.snap_out.clone();
     so.sort_unstable();
     w.ids(&so);
+    w.us(l.snap_idx.len());
+    for (k, v) in &l.snap_idx {
+        w.u64(*k);
+        w.u64(*v);
+    }
     match l.xfer {
         None => w.u8(0),
         Some((t, n)) => {
